@@ -254,7 +254,7 @@ func (e *verifEnv) outcome(err error, valueOK, isZero bool, nilRule int) {
 			verifAssert(err == red.Nil, "redis.Nil is passed through")
 			verifReach("nil-passed")
 		default:
-			verifAssert(verifOr(err == red.Nil, verifAnd(err == nil, isZero)), "absent key: redis.Nil, or no error and the zero value")
+			verifAssert(verifOr(err == red.Nil, verifAnd(err == nil, isZero)), "absent key: redis.Nil, or no error and the zero value (rule no longer used: every method is pinned to swallowed or passed)")
 			verifReach("nil-either")
 		}
 	case verifOther:
@@ -270,7 +270,7 @@ func (e *verifEnv) outcome(err error, valueOK, isZero bool, nilRule int) {
 	}
 }
 
-func (e *verifEnv) errOnly(err error) { e.outcome(err, true, true, verifNilEither) }
+func (e *verifEnv) errOnly(err error) { e.outcome(err, true, true, verifNilPassed) }
 
 type verifMethod struct {
 	name string
@@ -341,7 +341,7 @@ func verifMethods() []verifMethod {
 				v, err = e.r.SetNXCtx(e.ctx, k, val)
 			}
 			e.issued("SetNX", vS(k, val), vI(0), nil)
-			e.outcome(err, v == e.n.b, !v, verifNilEither)
+			e.outcome(err, v == e.n.b, !v, verifNilPassed)
 		}},
 		{"SetNXEx", func(e *verifEnv) {
 			k, val, s := e.str("key"), e.str("value"), e.seconds("seconds")
@@ -354,7 +354,7 @@ func verifMethods() []verifMethod {
 				v, err = e.r.SetNXExCtx(e.ctx, k, val, s)
 			}
 			e.issued("SetNX", vS(k, val), vI(int64(s)*int64(time.Second)), nil)
-			e.outcome(err, v == e.n.b, !v, verifNilEither)
+			e.outcome(err, v == e.n.b, !v, verifNilPassed)
 		}},
 		{"MGet", func(e *verifEnv) {
 			k0, k1 := e.str("key0"), e.str("key1")
@@ -367,7 +367,7 @@ func verifMethods() []verifMethod {
 				v, err = e.r.MGetCtx(e.ctx, k0, k1)
 			}
 			e.issued("MGet", vS(k0, k1), nil, nil)
-			e.outcome(err, len(v) == 2 && verifAnd(v[0] == e.n.as[0].(string), v[1] == ""), len(v) == 0, verifNilEither)
+			e.outcome(err, len(v) == 2 && verifAnd(v[0] == e.n.as[0].(string), v[1] == ""), len(v) == 0, verifNilPassed)
 		}},
 		{"Incr", func(e *verifEnv) {
 			k := e.str("key")
@@ -380,7 +380,7 @@ func verifMethods() []verifMethod {
 				v, err = e.r.IncrCtx(e.ctx, k)
 			}
 			e.issued("Incr", vS(k), nil, nil)
-			e.outcome(err, v == e.n.i, v == 0, verifNilEither)
+			e.outcome(err, v == e.n.i, v == 0, verifNilPassed)
 		}},
 		{"IncrBy", func(e *verifEnv) {
 			k, d := e.str("key"), verifInt64("increment")
@@ -393,7 +393,7 @@ func verifMethods() []verifMethod {
 				v, err = e.r.IncrByCtx(e.ctx, k, d)
 			}
 			e.issued("IncrBy", vS(k), vI(d), nil)
-			e.outcome(err, v == e.n.i, v == 0, verifNilEither)
+			e.outcome(err, v == e.n.i, v == 0, verifNilPassed)
 		}},
 		{"Decr", func(e *verifEnv) {
 			k := e.str("key")
@@ -406,7 +406,7 @@ func verifMethods() []verifMethod {
 				v, err = e.r.DecrCtx(e.ctx, k)
 			}
 			e.issued("Decr", vS(k), nil, nil)
-			e.outcome(err, v == e.n.i, v == 0, verifNilEither)
+			e.outcome(err, v == e.n.i, v == 0, verifNilPassed)
 		}},
 		{"DecrBy", func(e *verifEnv) {
 			k, d := e.str("key"), verifInt64("decrement")
@@ -419,7 +419,7 @@ func verifMethods() []verifMethod {
 				v, err = e.r.DecrByCtx(e.ctx, k, d)
 			}
 			e.issued("DecrBy", vS(k), vI(d), nil)
-			e.outcome(err, v == e.n.i, v == 0, verifNilEither)
+			e.outcome(err, v == e.n.i, v == 0, verifNilPassed)
 		}},
 		{"Del", func(e *verifEnv) {
 			k0, k1 := e.str("key0"), e.str("key1")
@@ -432,7 +432,7 @@ func verifMethods() []verifMethod {
 				v, err = e.r.DelCtx(e.ctx, k0, k1)
 			}
 			e.issued("Del", vS(k0, k1), nil, nil)
-			e.outcome(err, int64(v) == e.n.i, v == 0, verifNilEither)
+			e.outcome(err, int64(v) == e.n.i, v == 0, verifNilPassed)
 		}},
 		{"Exists", func(e *verifEnv) {
 			k := e.str("key")
@@ -445,7 +445,7 @@ func verifMethods() []verifMethod {
 				v, err = e.r.ExistsCtx(e.ctx, k)
 			}
 			e.issued("Exists", vS(k), nil, nil)
-			e.outcome(err, v == (e.n.i == 1), !v, verifNilEither)
+			e.outcome(err, v == (e.n.i == 1), !v, verifNilPassed)
 		}},
 		{"Expire", func(e *verifEnv) {
 			k, s := e.str("key"), e.seconds("seconds")
@@ -484,7 +484,7 @@ func verifMethods() []verifMethod {
 				v, err = e.r.PersistCtx(e.ctx, k)
 			}
 			e.issued("Persist", vS(k), nil, nil)
-			e.outcome(err, v == e.n.b, !v, verifNilEither)
+			e.outcome(err, v == e.n.b, !v, verifNilPassed)
 		}},
 		{"TTL", func(e *verifEnv) {
 			// the server's answer is a whole number of seconds >= 0, which go-redis
@@ -501,7 +501,7 @@ func verifMethods() []verifMethod {
 				v, err = e.r.TTLCtx(e.ctx, k)
 			}
 			e.issued("TTL", vS(k), nil, nil)
-			e.outcome(err, int64(v) == s, v == 0, verifNilEither)
+			e.outcome(err, int64(v) == s, v == 0, verifNilPassed)
 		}},
 		{"Keys", func(e *verifEnv) {
 			p := e.str("pattern")
@@ -514,7 +514,7 @@ func verifMethods() []verifMethod {
 				v, err = e.r.KeysCtx(e.ctx, p)
 			}
 			e.issued("Keys", vS(p), nil, nil)
-			e.outcome(err, verifEqStrs(v, e.n.ss), len(v) == 0, verifNilEither)
+			e.outcome(err, verifEqStrs(v, e.n.ss), len(v) == 0, verifNilPassed)
 		}},
 		{"Scan", func(e *verifEnv) {
 			cur, m, cnt := verifUint64("cursor-in"), e.str("match"), verifInt64("count")
@@ -528,7 +528,7 @@ func verifMethods() []verifMethod {
 				v, next, err = e.r.ScanCtx(e.ctx, cur, m, cnt)
 			}
 			e.issued("Scan", vS(m), vI(int64(cur), cnt), nil)
-			e.outcome(err, verifAnd(verifEqStrs(v, e.n.ss), next == e.n.cur), len(v) == 0 && next == 0, verifNilEither)
+			e.outcome(err, verifAnd(verifEqStrs(v, e.n.ss), next == e.n.cur), len(v) == 0 && next == 0, verifNilPassed)
 		}},
 		// ---- bitmaps
 		{"BitCount", func(e *verifEnv) {
@@ -542,7 +542,7 @@ func verifMethods() []verifMethod {
 				v, err = e.r.BitCountCtx(e.ctx, k, s, t)
 			}
 			e.issued("BitCount", vS(k), vI(s, t), nil)
-			e.outcome(err, v == e.n.i, v == 0, verifNilEither)
+			e.outcome(err, v == e.n.i, v == 0, verifNilPassed)
 		}},
 		{"BitOpAnd", func(e *verifEnv) {
 			d, k0, k1 := e.str("dest"), e.str("key0"), e.str("key1")
@@ -555,7 +555,7 @@ func verifMethods() []verifMethod {
 				v, err = e.r.BitOpAndCtx(e.ctx, d, k0, k1)
 			}
 			e.issued("BitOpAnd", vS(d, k0, k1), nil, nil)
-			e.outcome(err, v == e.n.i, v == 0, verifNilEither)
+			e.outcome(err, v == e.n.i, v == 0, verifNilPassed)
 		}},
 		{"BitOpOr", func(e *verifEnv) {
 			d, k0, k1 := e.str("dest"), e.str("key0"), e.str("key1")
@@ -568,7 +568,7 @@ func verifMethods() []verifMethod {
 				v, err = e.r.BitOpOrCtx(e.ctx, d, k0, k1)
 			}
 			e.issued("BitOpOr", vS(d, k0, k1), nil, nil)
-			e.outcome(err, v == e.n.i, v == 0, verifNilEither)
+			e.outcome(err, v == e.n.i, v == 0, verifNilPassed)
 		}},
 		{"BitOpXor", func(e *verifEnv) {
 			d, k0, k1 := e.str("dest"), e.str("key0"), e.str("key1")
@@ -581,7 +581,7 @@ func verifMethods() []verifMethod {
 				v, err = e.r.BitOpXorCtx(e.ctx, d, k0, k1)
 			}
 			e.issued("BitOpXor", vS(d, k0, k1), nil, nil)
-			e.outcome(err, v == e.n.i, v == 0, verifNilEither)
+			e.outcome(err, v == e.n.i, v == 0, verifNilPassed)
 		}},
 		{"BitOpNot", func(e *verifEnv) {
 			d, k := e.str("dest"), e.str("key")
@@ -594,7 +594,7 @@ func verifMethods() []verifMethod {
 				v, err = e.r.BitOpNotCtx(e.ctx, d, k)
 			}
 			e.issued("BitOpNot", vS(d, k), nil, nil)
-			e.outcome(err, v == e.n.i, v == 0, verifNilEither)
+			e.outcome(err, v == e.n.i, v == 0, verifNilPassed)
 		}},
 		{"BitPos", func(e *verifEnv) {
 			k, bit, s, t := e.str("key"), verifInt64("bit"), verifInt64("start"), verifInt64("end")
@@ -607,7 +607,7 @@ func verifMethods() []verifMethod {
 				v, err = e.r.BitPosCtx(e.ctx, k, bit, s, t)
 			}
 			e.issued("BitPos", vS(k), vI(bit, s, t), nil)
-			e.outcome(err, v == e.n.i, v == 0, verifNilEither)
+			e.outcome(err, v == e.n.i, v == 0, verifNilPassed)
 		}},
 		{"GetBit", func(e *verifEnv) {
 			k, off := e.str("key"), verifInt64("offset")
@@ -620,7 +620,7 @@ func verifMethods() []verifMethod {
 				v, err = e.r.GetBitCtx(e.ctx, k, off)
 			}
 			e.issued("GetBit", vS(k), vI(off), nil)
-			e.outcome(err, int64(v) == e.n.i, v == 0, verifNilEither)
+			e.outcome(err, int64(v) == e.n.i, v == 0, verifNilPassed)
 		}},
 		{"SetBit", func(e *verifEnv) {
 			k, off, bit := e.str("key"), verifInt64("offset"), verifInt("bit")
@@ -633,7 +633,7 @@ func verifMethods() []verifMethod {
 				v, err = e.r.SetBitCtx(e.ctx, k, off, bit)
 			}
 			e.issued("SetBit", vS(k), vI(off, int64(bit)), nil)
-			e.outcome(err, int64(v) == e.n.i, v == 0, verifNilEither)
+			e.outcome(err, int64(v) == e.n.i, v == 0, verifNilPassed)
 		}},
 		// ---- hashes
 		{"HGet", func(e *verifEnv) {
@@ -647,7 +647,7 @@ func verifMethods() []verifMethod {
 				v, err = e.r.HGetCtx(e.ctx, k, f)
 			}
 			e.issued("HGet", vS(k, f), nil, nil)
-			e.outcome(err, v == e.n.s, v == "", verifNilEither)
+			e.outcome(err, v == e.n.s, v == "", verifNilPassed)
 		}},
 		{"HSet", func(e *verifEnv) {
 			k, f, val := e.str("key"), e.str("field"), e.str("value")
@@ -672,7 +672,7 @@ func verifMethods() []verifMethod {
 				v, err = e.r.HSetNXCtx(e.ctx, k, f, val)
 			}
 			e.issued("HSetNX", vS(k, f, val), nil, nil)
-			e.outcome(err, v == e.n.b, !v, verifNilEither)
+			e.outcome(err, v == e.n.b, !v, verifNilPassed)
 		}},
 		{"HDel", func(e *verifEnv) {
 			k, f0, f1 := e.str("key"), e.str("field0"), e.str("field1")
@@ -685,7 +685,7 @@ func verifMethods() []verifMethod {
 				v, err = e.r.HDelCtx(e.ctx, k, f0, f1)
 			}
 			e.issued("HDel", vS(k, f0, f1), nil, nil)
-			e.outcome(err, v == (e.n.i >= 1), !v, verifNilEither)
+			e.outcome(err, v == (e.n.i >= 1), !v, verifNilPassed)
 		}},
 		{"HExists", func(e *verifEnv) {
 			k, f := e.str("key"), e.str("field")
@@ -698,7 +698,7 @@ func verifMethods() []verifMethod {
 				v, err = e.r.HExistsCtx(e.ctx, k, f)
 			}
 			e.issued("HExists", vS(k, f), nil, nil)
-			e.outcome(err, v == e.n.b, !v, verifNilEither)
+			e.outcome(err, v == e.n.b, !v, verifNilPassed)
 		}},
 		{"HGetAll", func(e *verifEnv) {
 			k := e.str("key")
@@ -711,7 +711,7 @@ func verifMethods() []verifMethod {
 				v, err = e.r.HGetAllCtx(e.ctx, k)
 			}
 			e.issued("HGetAll", vS(k), nil, nil)
-			e.outcome(err, len(v) == 2 && verifAnd(v["f1"] == e.n.m["f1"], v["f2"] == e.n.m["f2"]), len(v) == 0, verifNilEither)
+			e.outcome(err, len(v) == 2 && verifAnd(v["f1"] == e.n.m["f1"], v["f2"] == e.n.m["f2"]), len(v) == 0, verifNilPassed)
 		}},
 		{"HIncrBy", func(e *verifEnv) {
 			k, f, d := e.str("key"), e.str("field"), verifInt("increment")
@@ -724,7 +724,7 @@ func verifMethods() []verifMethod {
 				v, err = e.r.HIncrByCtx(e.ctx, k, f, d)
 			}
 			e.issued("HIncrBy", vS(k, f), vI(int64(d)), nil)
-			e.outcome(err, int64(v) == e.n.i, v == 0, verifNilEither)
+			e.outcome(err, int64(v) == e.n.i, v == 0, verifNilPassed)
 		}},
 		{"HKeys", func(e *verifEnv) {
 			k := e.str("key")
@@ -737,7 +737,7 @@ func verifMethods() []verifMethod {
 				v, err = e.r.HKeysCtx(e.ctx, k)
 			}
 			e.issued("HKeys", vS(k), nil, nil)
-			e.outcome(err, verifEqStrs(v, e.n.ss), len(v) == 0, verifNilEither)
+			e.outcome(err, verifEqStrs(v, e.n.ss), len(v) == 0, verifNilPassed)
 		}},
 		{"HLen", func(e *verifEnv) {
 			k := e.str("key")
@@ -750,7 +750,7 @@ func verifMethods() []verifMethod {
 				v, err = e.r.HLenCtx(e.ctx, k)
 			}
 			e.issued("HLen", vS(k), nil, nil)
-			e.outcome(err, int64(v) == e.n.i, v == 0, verifNilEither)
+			e.outcome(err, int64(v) == e.n.i, v == 0, verifNilPassed)
 		}},
 		{"HMGet", func(e *verifEnv) {
 			k, f0, f1 := e.str("key"), e.str("field0"), e.str("field1")
@@ -763,7 +763,7 @@ func verifMethods() []verifMethod {
 				v, err = e.r.HMGetCtx(e.ctx, k, f0, f1)
 			}
 			e.issued("HMGet", vS(k, f0, f1), nil, nil)
-			e.outcome(err, len(v) == 2 && verifAnd(v[0] == "", v[1] == e.n.as[1].(string)), len(v) == 0, verifNilEither)
+			e.outcome(err, len(v) == 2 && verifAnd(v[0] == "", v[1] == e.n.as[1].(string)), len(v) == 0, verifNilPassed)
 		}},
 		{"HMSet", func(e *verifEnv) {
 			k, v1, v2 := e.str("key"), e.str("value1"), e.str("value2")
@@ -792,7 +792,7 @@ func verifMethods() []verifMethod {
 				v, next, err = e.r.HScanCtx(e.ctx, k, cur, m, cnt)
 			}
 			e.issued("HScan", vS(k, m), vI(int64(cur), cnt), nil)
-			e.outcome(err, verifAnd(verifEqStrs(v, e.n.ss), next == e.n.cur), len(v) == 0 && next == 0, verifNilEither)
+			e.outcome(err, verifAnd(verifEqStrs(v, e.n.ss), next == e.n.cur), len(v) == 0 && next == 0, verifNilPassed)
 		}},
 		{"HVals", func(e *verifEnv) {
 			k := e.str("key")
@@ -805,7 +805,7 @@ func verifMethods() []verifMethod {
 				v, err = e.r.HValsCtx(e.ctx, k)
 			}
 			e.issued("HVals", vS(k), nil, nil)
-			e.outcome(err, verifEqStrs(v, e.n.ss), len(v) == 0, verifNilEither)
+			e.outcome(err, verifEqStrs(v, e.n.ss), len(v) == 0, verifNilPassed)
 		}},
 		// ---- lists
 		{"LPush", func(e *verifEnv) {
@@ -819,7 +819,7 @@ func verifMethods() []verifMethod {
 				v, err = e.r.LPushCtx(e.ctx, k, a, b)
 			}
 			e.issued("LPush", vS(k, a, b), nil, nil)
-			e.outcome(err, int64(v) == e.n.i, v == 0, verifNilEither)
+			e.outcome(err, int64(v) == e.n.i, v == 0, verifNilPassed)
 		}},
 		{"RPush", func(e *verifEnv) {
 			k, a, b := e.str("key"), e.str("value0"), e.str("value1")
@@ -832,7 +832,7 @@ func verifMethods() []verifMethod {
 				v, err = e.r.RPushCtx(e.ctx, k, a, b)
 			}
 			e.issued("RPush", vS(k, a, b), nil, nil)
-			e.outcome(err, int64(v) == e.n.i, v == 0, verifNilEither)
+			e.outcome(err, int64(v) == e.n.i, v == 0, verifNilPassed)
 		}},
 		{"LPop", func(e *verifEnv) {
 			k := e.str("key")
@@ -845,7 +845,7 @@ func verifMethods() []verifMethod {
 				v, err = e.r.LPopCtx(e.ctx, k)
 			}
 			e.issued("LPop", vS(k), nil, nil)
-			e.outcome(err, v == e.n.s, v == "", verifNilEither)
+			e.outcome(err, v == e.n.s, v == "", verifNilPassed)
 		}},
 		{"RPop", func(e *verifEnv) {
 			k := e.str("key")
@@ -858,7 +858,7 @@ func verifMethods() []verifMethod {
 				v, err = e.r.RPopCtx(e.ctx, k)
 			}
 			e.issued("RPop", vS(k), nil, nil)
-			e.outcome(err, v == e.n.s, v == "", verifNilEither)
+			e.outcome(err, v == e.n.s, v == "", verifNilPassed)
 		}},
 		{"LLen", func(e *verifEnv) {
 			k := e.str("key")
@@ -871,7 +871,7 @@ func verifMethods() []verifMethod {
 				v, err = e.r.LLenCtx(e.ctx, k)
 			}
 			e.issued("LLen", vS(k), nil, nil)
-			e.outcome(err, int64(v) == e.n.i, v == 0, verifNilEither)
+			e.outcome(err, int64(v) == e.n.i, v == 0, verifNilPassed)
 		}},
 		{"LIndex", func(e *verifEnv) {
 			k, i := e.str("key"), verifInt64("index")
@@ -884,7 +884,7 @@ func verifMethods() []verifMethod {
 				v, err = e.r.LIndexCtx(e.ctx, k, i)
 			}
 			e.issued("LIndex", vS(k), vI(i), nil)
-			e.outcome(err, v == e.n.s, v == "", verifNilEither)
+			e.outcome(err, v == e.n.s, v == "", verifNilPassed)
 		}},
 		{"LRange", func(e *verifEnv) {
 			k, s, t := e.str("key"), verifInt("start"), verifInt("stop")
@@ -897,7 +897,7 @@ func verifMethods() []verifMethod {
 				v, err = e.r.LRangeCtx(e.ctx, k, s, t)
 			}
 			e.issued("LRange", vS(k), vI(int64(s), int64(t)), nil)
-			e.outcome(err, verifEqStrs(v, e.n.ss), len(v) == 0, verifNilEither)
+			e.outcome(err, verifEqStrs(v, e.n.ss), len(v) == 0, verifNilPassed)
 		}},
 		{"LRem", func(e *verifEnv) {
 			k, cnt, val := e.str("key"), verifInt("count"), e.str("value")
@@ -910,7 +910,7 @@ func verifMethods() []verifMethod {
 				v, err = e.r.LRemCtx(e.ctx, k, cnt, val)
 			}
 			e.issued("LRem", vS(k, val), vI(int64(cnt)), nil)
-			e.outcome(err, int64(v) == e.n.i, v == 0, verifNilEither)
+			e.outcome(err, int64(v) == e.n.i, v == 0, verifNilPassed)
 		}},
 		{"LTrim", func(e *verifEnv) {
 			k, s, t := e.str("key"), verifInt64("start"), verifInt64("stop")
@@ -935,7 +935,7 @@ func verifMethods() []verifMethod {
 				v, err = e.r.SAddCtx(e.ctx, k, a, b)
 			}
 			e.issued("SAdd", vS(k, a, b), nil, nil)
-			e.outcome(err, int64(v) == e.n.i, v == 0, verifNilEither)
+			e.outcome(err, int64(v) == e.n.i, v == 0, verifNilPassed)
 		}},
 		{"SRem", func(e *verifEnv) {
 			k, a, b := e.str("key"), e.str("member0"), e.str("member1")
@@ -948,7 +948,7 @@ func verifMethods() []verifMethod {
 				v, err = e.r.SRemCtx(e.ctx, k, a, b)
 			}
 			e.issued("SRem", vS(k, a, b), nil, nil)
-			e.outcome(err, int64(v) == e.n.i, v == 0, verifNilEither)
+			e.outcome(err, int64(v) == e.n.i, v == 0, verifNilPassed)
 		}},
 		{"SIsMember", func(e *verifEnv) {
 			k, m := e.str("key"), e.str("member")
@@ -961,7 +961,7 @@ func verifMethods() []verifMethod {
 				v, err = e.r.SIsMemberCtx(e.ctx, k, m)
 			}
 			e.issued("SIsMember", vS(k, m), nil, nil)
-			e.outcome(err, v == e.n.b, !v, verifNilEither)
+			e.outcome(err, v == e.n.b, !v, verifNilPassed)
 		}},
 		{"SMembers", func(e *verifEnv) {
 			k := e.str("key")
@@ -974,7 +974,7 @@ func verifMethods() []verifMethod {
 				v, err = e.r.SMembersCtx(e.ctx, k)
 			}
 			e.issued("SMembers", vS(k), nil, nil)
-			e.outcome(err, verifEqStrs(v, e.n.ss), len(v) == 0, verifNilEither)
+			e.outcome(err, verifEqStrs(v, e.n.ss), len(v) == 0, verifNilPassed)
 		}},
 		{"SCard", func(e *verifEnv) {
 			k := e.str("key")
@@ -987,7 +987,7 @@ func verifMethods() []verifMethod {
 				v, err = e.r.SCardCtx(e.ctx, k)
 			}
 			e.issued("SCard", vS(k), nil, nil)
-			e.outcome(err, v == e.n.i, v == 0, verifNilEither)
+			e.outcome(err, v == e.n.i, v == 0, verifNilPassed)
 		}},
 		{"SPop", func(e *verifEnv) {
 			k := e.str("key")
@@ -1000,7 +1000,7 @@ func verifMethods() []verifMethod {
 				v, err = e.r.SPopCtx(e.ctx, k)
 			}
 			e.issued("SPop", vS(k), nil, nil)
-			e.outcome(err, v == e.n.s, v == "", verifNilEither)
+			e.outcome(err, v == e.n.s, v == "", verifNilPassed)
 		}},
 		{"SRandMember", func(e *verifEnv) {
 			k, cnt := e.str("key"), verifInt("count")
@@ -1013,7 +1013,7 @@ func verifMethods() []verifMethod {
 				v, err = e.r.SRandMemberCtx(e.ctx, k, cnt)
 			}
 			e.issued("SRandMemberN", vS(k), vI(int64(cnt)), nil)
-			e.outcome(err, verifEqStrs(v, e.n.ss), len(v) == 0, verifNilEither)
+			e.outcome(err, verifEqStrs(v, e.n.ss), len(v) == 0, verifNilPassed)
 		}},
 		{"SScan", func(e *verifEnv) {
 			k, cur, m, cnt := e.str("key"), verifUint64("cursor-in"), e.str("match"), verifInt64("count")
@@ -1027,7 +1027,7 @@ func verifMethods() []verifMethod {
 				v, next, err = e.r.SScanCtx(e.ctx, k, cur, m, cnt)
 			}
 			e.issued("SScan", vS(k, m), vI(int64(cur), cnt), nil)
-			e.outcome(err, verifAnd(verifEqStrs(v, e.n.ss), next == e.n.cur), len(v) == 0 && next == 0, verifNilEither)
+			e.outcome(err, verifAnd(verifEqStrs(v, e.n.ss), next == e.n.cur), len(v) == 0 && next == 0, verifNilPassed)
 		}},
 		{"SUnion", func(e *verifEnv) {
 			k0, k1 := e.str("key0"), e.str("key1")
@@ -1040,7 +1040,7 @@ func verifMethods() []verifMethod {
 				v, err = e.r.SUnionCtx(e.ctx, k0, k1)
 			}
 			e.issued("SUnion", vS(k0, k1), nil, nil)
-			e.outcome(err, verifEqStrs(v, e.n.ss), len(v) == 0, verifNilEither)
+			e.outcome(err, verifEqStrs(v, e.n.ss), len(v) == 0, verifNilPassed)
 		}},
 		{"SUnionStore", func(e *verifEnv) {
 			d, k0, k1 := e.str("dest"), e.str("key0"), e.str("key1")
@@ -1053,7 +1053,7 @@ func verifMethods() []verifMethod {
 				v, err = e.r.SUnionStoreCtx(e.ctx, d, k0, k1)
 			}
 			e.issued("SUnionStore", vS(d, k0, k1), nil, nil)
-			e.outcome(err, int64(v) == e.n.i, v == 0, verifNilEither)
+			e.outcome(err, int64(v) == e.n.i, v == 0, verifNilPassed)
 		}},
 		{"SDiff", func(e *verifEnv) {
 			k0, k1 := e.str("key0"), e.str("key1")
@@ -1066,7 +1066,7 @@ func verifMethods() []verifMethod {
 				v, err = e.r.SDiffCtx(e.ctx, k0, k1)
 			}
 			e.issued("SDiff", vS(k0, k1), nil, nil)
-			e.outcome(err, verifEqStrs(v, e.n.ss), len(v) == 0, verifNilEither)
+			e.outcome(err, verifEqStrs(v, e.n.ss), len(v) == 0, verifNilPassed)
 		}},
 		{"SDiffStore", func(e *verifEnv) {
 			d, k0, k1 := e.str("dest"), e.str("key0"), e.str("key1")
@@ -1079,7 +1079,7 @@ func verifMethods() []verifMethod {
 				v, err = e.r.SDiffStoreCtx(e.ctx, d, k0, k1)
 			}
 			e.issued("SDiffStore", vS(d, k0, k1), nil, nil)
-			e.outcome(err, int64(v) == e.n.i, v == 0, verifNilEither)
+			e.outcome(err, int64(v) == e.n.i, v == 0, verifNilPassed)
 		}},
 		{"SInter", func(e *verifEnv) {
 			k0, k1 := e.str("key0"), e.str("key1")
@@ -1092,7 +1092,7 @@ func verifMethods() []verifMethod {
 				v, err = e.r.SInterCtx(e.ctx, k0, k1)
 			}
 			e.issued("SInter", vS(k0, k1), nil, nil)
-			e.outcome(err, verifEqStrs(v, e.n.ss), len(v) == 0, verifNilEither)
+			e.outcome(err, verifEqStrs(v, e.n.ss), len(v) == 0, verifNilPassed)
 		}},
 		{"SInterStore", func(e *verifEnv) {
 			d, k0, k1 := e.str("dest"), e.str("key0"), e.str("key1")
@@ -1105,7 +1105,7 @@ func verifMethods() []verifMethod {
 				v, err = e.r.SInterStoreCtx(e.ctx, d, k0, k1)
 			}
 			e.issued("SInterStore", vS(d, k0, k1), nil, nil)
-			e.outcome(err, int64(v) == e.n.i, v == 0, verifNilEither)
+			e.outcome(err, int64(v) == e.n.i, v == 0, verifNilPassed)
 		}},
 		// ---- hyperloglog
 		{"PFAdd", func(e *verifEnv) {
@@ -1119,7 +1119,7 @@ func verifMethods() []verifMethod {
 				v, err = e.r.PFAddCtx(e.ctx, k, a, b)
 			}
 			e.issued("PFAdd", vS(k, a, b), nil, nil)
-			e.outcome(err, v == (e.n.i == 1), !v, verifNilEither)
+			e.outcome(err, v == (e.n.i == 1), !v, verifNilPassed)
 		}},
 		{"PFCount", func(e *verifEnv) {
 			k := e.str("key")
@@ -1132,7 +1132,7 @@ func verifMethods() []verifMethod {
 				v, err = e.r.PFCountCtx(e.ctx, k)
 			}
 			e.issued("PFCount", vS(k), nil, nil)
-			e.outcome(err, v == e.n.i, v == 0, verifNilEither)
+			e.outcome(err, v == e.n.i, v == 0, verifNilPassed)
 		}},
 		{"PFMerge", func(e *verifEnv) {
 			d, k0, k1 := e.str("dest"), e.str("key0"), e.str("key1")
@@ -1157,7 +1157,7 @@ func verifMethods() []verifMethod {
 				v, err = e.r.ZAddCtx(e.ctx, k, sc, m)
 			}
 			e.issued("ZAdd", vS(k, m), nil, vF(float64(sc)))
-			e.outcome(err, v == (e.n.i == 1), !v, verifNilEither)
+			e.outcome(err, v == (e.n.i == 1), !v, verifNilPassed)
 		}},
 		{"ZAddFloat", func(e *verifEnv) {
 			k, sc, m := e.str("key"), e.flt("score"), e.str("member")
@@ -1170,7 +1170,7 @@ func verifMethods() []verifMethod {
 				v, err = e.r.ZAddFloatCtx(e.ctx, k, sc, m)
 			}
 			e.issued("ZAdd", vS(k, m), nil, vF(sc))
-			e.outcome(err, v == (e.n.i == 1), !v, verifNilEither)
+			e.outcome(err, v == (e.n.i == 1), !v, verifNilPassed)
 		}},
 		{"ZAdds", func(e *verifEnv) {
 			k := e.str("key")
@@ -1185,7 +1185,7 @@ func verifMethods() []verifMethod {
 				v, err = e.r.ZAddsCtx(e.ctx, k, p0, p1)
 			}
 			e.issued("ZAdd", vS(k, p0.Member, p1.Member), nil, vF(float64(p0.Score), float64(p1.Score)))
-			e.outcome(err, v == e.n.i, v == 0, verifNilEither)
+			e.outcome(err, v == e.n.i, v == 0, verifNilPassed)
 		}},
 		{"ZCard", func(e *verifEnv) {
 			k := e.str("key")
@@ -1198,7 +1198,7 @@ func verifMethods() []verifMethod {
 				v, err = e.r.ZCardCtx(e.ctx, k)
 			}
 			e.issued("ZCard", vS(k), nil, nil)
-			e.outcome(err, int64(v) == e.n.i, v == 0, verifNilEither)
+			e.outcome(err, int64(v) == e.n.i, v == 0, verifNilPassed)
 		}},
 		{"ZCount", func(e *verifEnv) {
 			k, s, t := e.str("key"), verifInt64("start"), verifInt64("stop")
@@ -1211,7 +1211,7 @@ func verifMethods() []verifMethod {
 				v, err = e.r.ZCountCtx(e.ctx, k, s, t)
 			}
 			e.issued("ZCount", vS(k), vI(s, t), nil)
-			e.outcome(err, int64(v) == e.n.i, v == 0, verifNilEither)
+			e.outcome(err, int64(v) == e.n.i, v == 0, verifNilPassed)
 		}},
 		{"ZIncrBy", func(e *verifEnv) {
 			k, d, m := e.str("key"), e.score("increment"), e.str("member")
@@ -1225,7 +1225,7 @@ func verifMethods() []verifMethod {
 				v, err = e.r.ZIncrByCtx(e.ctx, k, d, m)
 			}
 			e.issued("ZIncrBy", vS(k, m), nil, vF(float64(d)))
-			e.outcome(err, v == x, v == 0, verifNilEither)
+			e.outcome(err, v == x, v == 0, verifNilPassed)
 		}},
 		{"ZScore", func(e *verifEnv) {
 			k, m := e.str("key"), e.str("member")
@@ -1239,7 +1239,7 @@ func verifMethods() []verifMethod {
 				v, err = e.r.ZScoreCtx(e.ctx, k, m)
 			}
 			e.issued("ZScore", vS(k, m), nil, nil)
-			e.outcome(err, v == x, v == 0, verifNilEither)
+			e.outcome(err, v == x, v == 0, verifNilPassed)
 		}},
 		{"ZRank", func(e *verifEnv) {
 			k, m := e.str("key"), e.str("member")
@@ -1265,7 +1265,7 @@ func verifMethods() []verifMethod {
 				v, err = e.r.ZRevRankCtx(e.ctx, k, m)
 			}
 			e.issued("ZRevRank", vS(k, m), nil, nil)
-			e.outcome(err, v == e.n.i, v == 0, verifNilEither)
+			e.outcome(err, v == e.n.i, v == 0, verifNilPassed)
 		}},
 		{"ZRem", func(e *verifEnv) {
 			k, a, b := e.str("key"), e.str("member0"), e.str("member1")
@@ -1278,7 +1278,7 @@ func verifMethods() []verifMethod {
 				v, err = e.r.ZRemCtx(e.ctx, k, a, b)
 			}
 			e.issued("ZRem", vS(k, a, b), nil, nil)
-			e.outcome(err, int64(v) == e.n.i, v == 0, verifNilEither)
+			e.outcome(err, int64(v) == e.n.i, v == 0, verifNilPassed)
 		}},
 		{"ZRemRangeByScore", func(e *verifEnv) {
 			k, s, t := e.str("key"), verifInt64("start"), verifInt64("stop")
@@ -1291,7 +1291,7 @@ func verifMethods() []verifMethod {
 				v, err = e.r.ZRemRangeByScoreCtx(e.ctx, k, s, t)
 			}
 			e.issued("ZRemRangeByScore", vS(k), vI(s, t), nil)
-			e.outcome(err, int64(v) == e.n.i, v == 0, verifNilEither)
+			e.outcome(err, int64(v) == e.n.i, v == 0, verifNilPassed)
 		}},
 		{"ZRemRangeByRank", func(e *verifEnv) {
 			k, s, t := e.str("key"), verifInt64("start"), verifInt64("stop")
@@ -1304,7 +1304,7 @@ func verifMethods() []verifMethod {
 				v, err = e.r.ZRemRangeByRankCtx(e.ctx, k, s, t)
 			}
 			e.issued("ZRemRangeByRank", vS(k), vI(s, t), nil)
-			e.outcome(err, int64(v) == e.n.i, v == 0, verifNilEither)
+			e.outcome(err, int64(v) == e.n.i, v == 0, verifNilPassed)
 		}},
 		{"ZRange", func(e *verifEnv) {
 			k, s, t := e.str("key"), verifInt64("start"), verifInt64("stop")
@@ -1317,7 +1317,7 @@ func verifMethods() []verifMethod {
 				v, err = e.r.ZRangeCtx(e.ctx, k, s, t)
 			}
 			e.issued("ZRange", vS(k), vI(s, t), nil)
-			e.outcome(err, verifEqStrs(v, e.n.ss), len(v) == 0, verifNilEither)
+			e.outcome(err, verifEqStrs(v, e.n.ss), len(v) == 0, verifNilPassed)
 		}},
 		{"ZRevRange", func(e *verifEnv) {
 			k, s, t := e.str("key"), verifInt64("start"), verifInt64("stop")
@@ -1330,7 +1330,7 @@ func verifMethods() []verifMethod {
 				v, err = e.r.ZRevRangeCtx(e.ctx, k, s, t)
 			}
 			e.issued("ZRevRange", vS(k), vI(s, t), nil)
-			e.outcome(err, verifEqStrs(v, e.n.ss), len(v) == 0, verifNilEither)
+			e.outcome(err, verifEqStrs(v, e.n.ss), len(v) == 0, verifNilPassed)
 		}},
 		{"ZRangeWithScores", func(e *verifEnv) {
 			k, s, t := e.str("key"), verifInt64("start"), verifInt64("stop")
@@ -1343,7 +1343,7 @@ func verifMethods() []verifMethod {
 				v, err = e.r.ZRangeWithScoresCtx(e.ctx, k, s, t)
 			}
 			e.issued("ZRangeWithScores", vS(k), vI(s, t), nil)
-			e.outcome(err, e.pairsOK(v), len(v) == 0, verifNilEither)
+			e.outcome(err, e.pairsOK(v), len(v) == 0, verifNilPassed)
 		}},
 		{"ZRevRangeWithScores", func(e *verifEnv) {
 			k, s, t := e.str("key"), verifInt64("start"), verifInt64("stop")
@@ -1356,7 +1356,7 @@ func verifMethods() []verifMethod {
 				v, err = e.r.ZRevRangeWithScoresCtx(e.ctx, k, s, t)
 			}
 			e.issued("ZRevRangeWithScores", vS(k), vI(s, t), nil)
-			e.outcome(err, e.pairsOK(v), len(v) == 0, verifNilEither)
+			e.outcome(err, e.pairsOK(v), len(v) == 0, verifNilPassed)
 		}},
 		{"ZRangeByScoreWithScores", func(e *verifEnv) {
 			k, s, t := e.str("key"), verifInt64("start"), verifInt64("stop")
@@ -1369,7 +1369,7 @@ func verifMethods() []verifMethod {
 				v, err = e.r.ZRangeByScoreWithScoresCtx(e.ctx, k, s, t)
 			}
 			e.issued("ZRangeByScoreWithScores", vS(k), vI(s, t, 0, 0), nil)
-			e.outcome(err, e.pairsOK(v), len(v) == 0, verifNilEither)
+			e.outcome(err, e.pairsOK(v), len(v) == 0, verifNilPassed)
 		}},
 		{"ZRevRangeByScoreWithScores", func(e *verifEnv) {
 			k, s, t := e.str("key"), verifInt64("start"), verifInt64("stop")
@@ -1382,7 +1382,7 @@ func verifMethods() []verifMethod {
 				v, err = e.r.ZRevRangeByScoreWithScoresCtx(e.ctx, k, s, t)
 			}
 			e.issued("ZRevRangeByScoreWithScores", vS(k), vI(s, t, 0, 0), nil)
-			e.outcome(err, e.pairsOK(v), len(v) == 0, verifNilEither)
+			e.outcome(err, e.pairsOK(v), len(v) == 0, verifNilPassed)
 		}},
 		{"ZRangeByScoreWithScoresAndLimit", func(e *verifEnv) {
 			k, s, t := e.str("key"), verifInt64("start"), verifInt64("stop")
@@ -1400,7 +1400,7 @@ func verifMethods() []verifMethod {
 				v, err = e.r.ZRangeByScoreWithScoresAndLimitCtx(e.ctx, k, s, t, page, size)
 			}
 			e.issued("ZRangeByScoreWithScores", vS(k), vI(s, t, int64(page)*int64(size), int64(size)), nil)
-			e.outcome(err, e.pairsOK(v), len(v) == 0, verifNilEither)
+			e.outcome(err, e.pairsOK(v), len(v) == 0, verifNilPassed)
 		}},
 		{"ZRevRangeByScoreWithScoresAndLimit", func(e *verifEnv) {
 			k, s, t := e.str("key"), verifInt64("start"), verifInt64("stop")
@@ -1418,7 +1418,7 @@ func verifMethods() []verifMethod {
 				v, err = e.r.ZRevRangeByScoreWithScoresAndLimitCtx(e.ctx, k, s, t, page, size)
 			}
 			e.issued("ZRevRangeByScoreWithScores", vS(k), vI(s, t, int64(page)*int64(size), int64(size)), nil)
-			e.outcome(err, e.pairsOK(v), len(v) == 0, verifNilEither)
+			e.outcome(err, e.pairsOK(v), len(v) == 0, verifNilPassed)
 		}},
 		{"ZUnionStore", func(e *verifEnv) {
 			d := e.str("dest")
@@ -1434,7 +1434,7 @@ func verifMethods() []verifMethod {
 			if c := e.issued("ZUnionStore", vS(d), nil, nil); c != nil {
 				verifAssert(len(c.objs) == 1 && c.objs[0] == any(st), "ZUnionStore: the caller's store description is handed over")
 			}
-			e.outcome(err, v == e.n.i, v == 0, verifNilEither)
+			e.outcome(err, v == e.n.i, v == 0, verifNilPassed)
 		}},
 		// ---- geo
 		{"GeoAdd", func(e *verifEnv) {
@@ -1452,7 +1452,7 @@ func verifMethods() []verifMethod {
 			if c := e.issued("GeoAdd", vS(k), nil, nil); c != nil {
 				verifAssert(len(c.objs) == 2 && c.objs[0] == any(g0) && c.objs[1] == any(g1), "GeoAdd: the caller's locations are handed over in order")
 			}
-			e.outcome(err, v == e.n.i, v == 0, verifNilEither)
+			e.outcome(err, v == e.n.i, v == 0, verifNilPassed)
 		}},
 		{"GeoDist", func(e *verifEnv) {
 			k, m1, m2, u := e.str("key"), e.str("member1"), e.str("member2"), e.str("unit")
@@ -1465,7 +1465,7 @@ func verifMethods() []verifMethod {
 				v, err = e.r.GeoDistCtx(e.ctx, k, m1, m2, u)
 			}
 			e.issued("GeoDist", vS(k, m1, m2, u), nil, nil)
-			e.outcome(err, v == e.n.f, v == 0, verifNilEither)
+			e.outcome(err, v == e.n.f, v == 0, verifNilPassed)
 		}},
 		{"GeoHash", func(e *verifEnv) {
 			k, m1, m2 := e.str("key"), e.str("member1"), e.str("member2")
@@ -1478,7 +1478,7 @@ func verifMethods() []verifMethod {
 				v, err = e.r.GeoHashCtx(e.ctx, k, m1, m2)
 			}
 			e.issued("GeoHash", vS(k, m1, m2), nil, nil)
-			e.outcome(err, verifEqStrs(v, e.n.ss), len(v) == 0, verifNilEither)
+			e.outcome(err, verifEqStrs(v, e.n.ss), len(v) == 0, verifNilPassed)
 		}},
 		{"GeoPos", func(e *verifEnv) {
 			k, m1, m2 := e.str("key"), e.str("member1"), e.str("member2")
@@ -1491,7 +1491,7 @@ func verifMethods() []verifMethod {
 				v, err = e.r.GeoPosCtx(e.ctx, k, m1, m2)
 			}
 			e.issued("GeoPos", vS(k, m1, m2), nil, nil)
-			e.outcome(err, len(v) == 2 && v[0] == e.n.gp[0] && v[1] == nil, len(v) == 0, verifNilEither)
+			e.outcome(err, len(v) == 2 && v[0] == e.n.gp[0] && v[1] == nil, len(v) == 0, verifNilPassed)
 		}},
 		{"GeoRadius", func(e *verifEnv) {
 			k, lon, lat := e.str("key"), e.flt("longitude"), e.flt("latitude")
@@ -1507,7 +1507,7 @@ func verifMethods() []verifMethod {
 			if c := e.issued("GeoRadius", vS(k), nil, vF(lon, lat)); c != nil {
 				verifAssert(len(c.objs) == 1 && c.objs[0] == any(q), "GeoRadius: the caller's query is handed over")
 			}
-			e.outcome(err, len(v) == 1 && v[0].Name == e.n.gl[0].Name && v[0].Dist == 3.5, len(v) == 0, verifNilEither)
+			e.outcome(err, len(v) == 1 && v[0].Name == e.n.gl[0].Name && v[0].Dist == 3.5, len(v) == 0, verifNilPassed)
 		}},
 		{"GeoRadiusByMember", func(e *verifEnv) {
 			k, m := e.str("key"), e.str("member")
@@ -1523,7 +1523,7 @@ func verifMethods() []verifMethod {
 			if c := e.issued("GeoRadiusByMember", vS(k, m), nil, nil); c != nil {
 				verifAssert(len(c.objs) == 1 && c.objs[0] == any(q), "GeoRadiusByMember: the caller's query is handed over")
 			}
-			e.outcome(err, len(v) == 1 && v[0].Name == e.n.gl[0].Name && v[0].Dist == 3.5, len(v) == 0, verifNilEither)
+			e.outcome(err, len(v) == 1 && v[0].Name == e.n.gl[0].Name && v[0].Dist == 3.5, len(v) == 0, verifNilPassed)
 		}},
 		// ---- scripts
 		{"Eval", func(e *verifEnv) {
@@ -1568,7 +1568,7 @@ func verifMethods() []verifMethod {
 				v, err = e.r.ScriptLoadCtx(e.ctx, sc)
 			}
 			e.issued("ScriptLoad", vS(sc), nil, nil)
-			e.outcome(err, v == e.n.s, v == "", verifNilEither)
+			e.outcome(err, v == e.n.s, v == "", verifNilPassed)
 		}},
 		// ---- blocking pops: the caller hands over the node; documented to bypass the breaker
 		{"BLPop", func(e *verifEnv) {
@@ -1587,7 +1587,7 @@ func verifMethods() []verifMethod {
 				v, err = e.r.BLPopCtx(e.ctx, node, k)
 			}
 			e.issued("BLPop", vS(k), vI(int64(blockingQueryTimeout)), nil)
-			e.outcome(err, v == e.n.ss[1], v == "", verifNilEither)
+			e.outcome(err, v == e.n.ss[1], v == "", verifNilPassed)
 		}},
 		{"BLPopEx", func(e *verifEnv) {
 			k := e.str("key")
@@ -1606,7 +1606,7 @@ func verifMethods() []verifMethod {
 				v, ok, err = e.r.BLPopExCtx(e.ctx, node, k)
 			}
 			e.issued("BLPop", vS(k), vI(int64(blockingQueryTimeout)), nil)
-			e.outcome(err, verifAnd(ok, v == e.n.ss[1]), verifAnd(!ok, v == ""), verifNilEither)
+			e.outcome(err, verifAnd(ok, v == e.n.ss[1]), verifAnd(!ok, v == ""), verifNilPassed)
 		}},
 		{"BLPopWithTimeout", func(e *verifEnv) {
 			k, d := e.str("key"), time.Duration(verifInt64("timeout"))
@@ -1624,7 +1624,7 @@ func verifMethods() []verifMethod {
 				v, err = e.r.BLPopWithTimeoutCtx(e.ctx, node, d, k)
 			}
 			e.issued("BLPop", vS(k), vI(int64(d)), nil)
-			e.outcome(err, v == e.n.ss[1], v == "", verifNilEither)
+			e.outcome(err, v == e.n.ss[1], v == "", verifNilPassed)
 		}},
 		// ---- pipeline
 		{"Pipelined", func(e *verifEnv) {
